@@ -4,7 +4,7 @@ A property whose anchors include bond_ops.py / operation.py / krylov.py / opgrap
 structural clauses decided there; a change in that support code breaks the dependent property as well, so the same
 rules are instantiated under the dependent property's id (the verdict is computed again, nothing is copied).
 """
-from ..loader import AnalysisError
+from ..loader import AnalysisError, norm
 from .common import where
 
 
@@ -105,3 +105,168 @@ def defassign_rules(chk, repo, rid, modules, facts=None, only=None):
     if nfun == 0:
         raise AnalysisError(f'definite assignment: no function found in modules {sorted(modules)}')
     return nfun
+
+
+_STORAGE_CALIBRATION = '''
+def f(v, scale, dtype):
+    buf = np.zeros((2, 2), dtype=v.dtype)
+    buf[0] = 0.5 * v
+    out = np.empty((2, 2), dtype=dtype)
+    out[:, :] = scale * np.identity(2)
+    ok = np.zeros((2, 2), dtype=np.result_type(v, scale, float))
+    ok[0] = 0.5 * v * scale
+    return buf, out, ok
+'''
+
+
+def storage_type_rules(chk, repo, rid, modules, only=None):
+    """stores into preallocated arrays must not narrow the element type (sa/dtypeflow.py); one obligation per function"""
+    import ast
+    from .. import dtypeflow as df
+    chk.rule(rid, 'storage type: a value written into an array that was preallocated with an explicit element type is cast to '
+                  'that type; its own element type (bool < int < float < complex, one symbol per input whose type the code '
+                  'does not fix) must be below the type of the array for every input - otherwise fractional or imaginary '
+                  'parts are discarded silently for inputs of a narrower type than the tests use')
+    # calibration: the engine must flag the two narrowing stores of the built-in example and accept the third
+    cal = df.buffer_stores(ast.parse(_STORAGE_CALIBRATION).body[0])
+    if [bool(b[5]) for b in sorted(cal, key=lambda b: b[0].lineno)] != [True, True, False]:
+        raise AnalysisError('storage-type engine fails its built-in calibration example')
+    nfun = nst = 0
+    for q, fi in sorted(repo.funcs.items()):
+        if fi.module not in modules or (only is not None and q not in only) or not isinstance(fi.node, ast.FunctionDef):
+            continue
+        stores = df.buffer_stores(fi.node)
+        nfun += 1
+        nst += len(stores)
+        bad = [b for b in stores if b[5]]
+        det = '; '.join(f'line {st.lineno}: `{norm(st)[:60]}` stores {df.show(vt)} into `{nm}` of type {df.show(bt)} '
+                        f'({", ".join(df.show([a]) for a in off)} is not below it)' for st, nm, _, bt, vt, off in bad)
+        chk.ob(rid, where(repo, fi, bad[0][0] if bad else fi.node),
+               f'{fi.qual}: {len(stores)} store(s) into preallocated typed arrays keep the element type', not bad, det,
+               key=f'{rid}|{q}')
+    if nfun == 0:
+        raise AnalysisError(f'storage type: no function found in modules {sorted(modules)}')
+    return nfun
+
+
+TABLE_CLASSES = {'OpGraph': ('opgraph', 'OpGraphNode'), 'AutOp': ('autop', 'AutOpNode')}
+
+
+def graph_table_rules(chk, repo, rid, classes=('OpGraph', 'AutOp')):
+    """The node / edge tables of OpGraph and AutOp are sibling implementations of one interface: every consumer
+    (reachability in from_automaton, contraction, simplification) reads the adjacency lists `node.eids[d]` that
+    add_connect_edge / add_edge_id fill.  Structural clauses, per class:
+      connect : add_connect_edge registers the edge unconditionally and then visits BOTH ends: a loop over the two
+                directions without `return` / `break`, whose body hands (edge.eid, 1 - d) to add_edge_id of the node
+                edge.nids[d], guarded by nothing but the presence of that very node
+      append  : <Node>.add_edge_id(eid, direction) appends eid to self.eids[direction] on every path
+      store   : add_node / add_edge store the object under its own id; the only other exit raises"""
+    import ast
+    from ..defuse import dominating_conditions, local_defs
+    from ..normal import continue_to_nested_if
+    chk.rule(rid, 'graph tables (OpGraph and AutOp are siblings): add_connect_edge registers the edge unconditionally and visits '
+                  'both ends - a loop over the two directions without return / break whose body passes (edge.eid, 1 - d) to '
+                  'add_edge_id of node edge.nids[d], guarded only by the presence of that node; add_edge_id appends the id to '
+                  'self.eids[direction] on every path; add_node / add_edge store the object under its own id.  (Every consumer - '
+                  'reachability pruning, contraction, simplification - reads these adjacency lists.)')
+    n = 0
+    for cname in classes:
+        mod, nname = TABLE_CLASSES[cname]
+        ci = repo.cls(cname)
+        # ---- connect
+        fi = ci.methods.get('add_connect_edge')
+        if fi is None:
+            raise AnalysisError(f'{cname}.add_connect_edge not found')
+        ep = fi.params[1]
+        body = [s for s in fi.node.body if not (isinstance(s, ast.Expr) and isinstance(s.value, ast.Constant))]
+        reg = [k for k, s in enumerate(body) if
+               (isinstance(s, ast.Expr) and isinstance(s.value, ast.Call) and norm(s.value) == f'self.add_edge({ep})') or
+               (isinstance(s, ast.Assign) and norm(s.targets[0]) == f'self.edges[{ep}.eid]' and norm(s.value) == ep)]
+        loops = [(k, s) for k, s in enumerate(body) if isinstance(s, ast.For) and isinstance(s.target, ast.Name) and
+                 norm(s.iter) in ('(0, 1)', '[0, 1]', 'range(2)', f'range(len({ep}.nids))')]
+        ok = len(reg) == 1 and len(loops) == 1 and reg[0] < loops[0][0] and \
+            not any(isinstance(x, (ast.Return, ast.Raise)) for s in body[:loops[0][0]] for x in ast.walk(s) if s is not body[reg[0]])
+        det = ''
+        if not ok:
+            det = 'registration of the edge followed by one loop over both directions not found'
+        else:
+            lp = loops[0][1]
+            d = lp.target.id
+            exits = [x for x in ast.walk(lp) if isinstance(x, (ast.Return, ast.Break))]
+            calls = [c for c in ast.walk(lp) if isinstance(c, ast.Call) and isinstance(c.func, ast.Attribute) and
+                     c.func.attr == 'add_edge_id']
+            defs = local_defs(fi.node)
+            want_node = f'self.nodes[{ep}.nids[{d}]]'
+            good = [c for c in calls if norm(c.func.value) == want_node and len(c.args) == 2 and norm(c.args[0]) == f'{ep}.eid'
+                    and norm(c.args[1]).replace(' ', '') == f'1-{d}']
+            if exits:
+                ok = False
+                det = f'the loop over the two ends is left early (`{norm(exits[0])}` at line {exits[0].lineno}): the other end ' \
+                      f'is not connected'
+            elif len(good) != 1 or len(calls) != 1:
+                ok = False
+                det = f'expected one call {want_node}.add_edge_id({ep}.eid, 1 - {d}); found {[norm(c)[:70] for c in calls]}'
+            else:
+                conds = dominating_conditions(fi.node, good[0], defs) or []
+                allowed = {f'{ep}.nids[{d}] in self.nodes'}
+                extra = [c for c in conds if norm(c).replace('not not ', '') not in allowed]
+                if extra:
+                    ok = False
+                    det = f'the connection is made only under `{norm(extra[0])[:60]}`'
+        chk.ob(rid, where(repo, fi, fi.node), f'{cname}.add_connect_edge: the edge is registered and both ends are connected '
+               f'independently', ok, det, key=f'{rid}|{cname}|connect')
+        n += 1
+        # ---- append
+        ni = repo.cls(nname).methods.get('add_edge_id')
+        if ni is None:
+            raise AnalysisError(f'{nname}.add_edge_id not found')
+        eidp, dirp = ni.params[1], ni.params[2]
+        defs = local_defs(ni.node)
+        apps = []
+        for c in ast.walk(ni.node):
+            if isinstance(c, ast.Call) and isinstance(c.func, ast.Attribute) and c.func.attr == 'append' and len(c.args) == 1:
+                recv = c.func.value
+                if isinstance(recv, ast.Name) and recv.id in defs:
+                    recv = defs[recv.id]
+                apps.append((c, norm(recv), norm(c.args[0])))
+        for s in ast.walk(ni.node):
+            if isinstance(s, ast.AugAssign) and isinstance(s.op, ast.Add) and norm(s.value) in (f'[{eidp}]', f'({eidp},)'):
+                recv = s.target
+                if isinstance(recv, ast.Name) and recv.id in defs:
+                    recv = defs[recv.id]
+                apps.append((s, norm(recv), eidp))
+        good = [a for a in apps if a[1] == f'self.eids[{dirp}]' and a[2] == eidp]
+        ok = len(good) == 1 and len(apps) == 1
+        det = '' if ok else f'appends found: {[(r, v) for _, r, v in apps]}'
+        if ok:
+            node_ = good[0][0]
+            conds = dominating_conditions(ni.node, node_, defs) or []
+            rets = [x for x in ast.walk(ni.node) if isinstance(x, ast.Return)]
+            if conds or rets:
+                ok = False
+                det = f'the id is appended only under `{norm(conds[0])[:60]}`' if conds else 'an early return skips the append'
+        chk.ob(rid, where(repo, ni, ni.node), f'{nname}.add_edge_id appends the id to self.eids[direction] on every path', ok, det,
+               key=f'{rid}|{nname}|append')
+        n += 1
+        # ---- store
+        for meth, table, idattr in (('add_node', 'nodes', 'nid'), ('add_edge', 'edges', 'eid')):
+            mi = ci.methods.get(meth)
+            if mi is None:
+                raise AnalysisError(f'{cname}.{meth} not found')
+            p = mi.params[1]
+            st = [s for s in ast.walk(mi.node) if isinstance(s, ast.Assign) and norm(s.targets[0]) == f'self.{table}[{p}.{idattr}]'
+                  and norm(s.value) == p]
+            ok = len(st) == 1
+            det = '' if ok else f'store self.{table}[{p}.{idattr}] = {p} not found'
+            if ok:
+                conds = dominating_conditions(mi.node, st[0], local_defs(mi.node)) or []
+                allowed = {f'{p}.{idattr} not in self.{table}', f'not {p}.{idattr} in self.{table}'}
+                extra = [c for c in conds if norm(c) not in allowed]
+                rets = [x for x in ast.walk(mi.node) if isinstance(x, ast.Return)]
+                if extra or rets:
+                    ok = False
+                    det = f'the store happens only under `{norm(extra[0])[:60]}`' if extra else 'a return skips the store'
+            chk.ob(rid, where(repo, mi, mi.node), f'{cname}.{meth} stores the object under its own id', ok, det,
+                   key=f'{rid}|{cname}|{meth}')
+            n += 1
+    return n
